@@ -26,7 +26,7 @@ func init() {
 		var pj engine.PolJSON
 		if err := json.NewDecoder(bufio.NewReader(os.Stdin)).Decode(&pj); err == nil {
 			_, pol := engine.FromJSON(pj)
-			if err := seccomp.LoadFilter(seccomp.Filter{NoNewPrivs: true, Policy: *pol}); err != nil {
+			if err := safeLoad(seccomp.Filter{NoNewPrivs: true, Policy: *pol}); err != nil {
 				out["load_err"] = err.Error()
 			}
 		}
